@@ -84,3 +84,18 @@ func (h *VerifC18Handle) States() map[string]map[string][]byte {
 
 	return out
 }
+
+// VerifC18Scheduled is a provider built by the real constructor (real gocron scheduler, jobs as in production).
+type VerifC18Scheduled struct{ p *provider }
+
+func VerifC18NewScheduled(conf *config.Configuration, processor rule.SetProcessor, logger zerolog.Logger) (*VerifC18Scheduled, error) {
+	p, err := newProvider(conf, processor, logger)
+	if err != nil {
+		return nil, err
+	}
+
+	return &VerifC18Scheduled{p}, nil
+}
+
+func (s *VerifC18Scheduled) Start() error { return s.p.Start(context.Background()) }
+func (s *VerifC18Scheduled) Stop() error  { return s.p.Stop(context.Background()) }
